@@ -10,23 +10,23 @@ theorem hist_get (h : Array Pkt) (l : List Pkt) (i : Nat) : (h ++ l.toArray)[h.s
 
 /-! ### write-loop passes -/
 /-- SHUTDOWN-SENT with SHUTDOWN due: one SHUTDOWN carrying the cumulative ack, T2 started -/
-theorem wl_shutdown (e : Ep) (h1 : e.dead = false) (h2 : e.wSC = false) (h3 : e.st = stShutdownSent) (h4 : e.wS = true)
+theorem wl_shutdown (e : Ep) (h0 : e.wAb = false) (h1 : e.dead = false) (h2 : e.wSC = false) (h3 : e.st = stShutdownSent) (h4 : e.wS = true)
     (h5 : e.wSA = false) (h6 : e.ack ≠ ackImmediate) :
     writeLoopPass e [] = ({ e with wS := false, t2 := t2start e.t2 }, [[.shutdown e.rcv.pl]]) := by
   have h6' : (e.ack == ackImmediate) = false := by simpa using h6
-  simp [writeLoopPass, gather, gatherPrio, gatherState, gatherShut, gatherSack, h1, h2, h3, h4, h5, h6',
+  simp [writeLoopPass, gather, gatherPrio, gatherState, gatherShut, gatherSack, h0, h1, h2, h3, h4, h5, h6',
     stShutdownSent, stShutdownAckSent, stEstablished, stShutdownPending, stShutdownReceived]
 
 /-- SHUTDOWN-ACK-SENT with SHUTDOWN-ACK due: one SHUTDOWN-ACK, T2 started -/
-theorem wl_shutdownAck (e : Ep) (h1 : e.dead = false) (h2 : e.wSC = false) (h3 : e.st = stShutdownAckSent) (h4 : e.wSA = true) :
+theorem wl_shutdownAck (e : Ep) (h0 : e.wAb = false) (h1 : e.dead = false) (h2 : e.wSC = false) (h3 : e.st = stShutdownAckSent) (h4 : e.wSA = true) :
     writeLoopPass e [] = ({ e with wSA := false, wS := false, t2 := t2start e.t2 }, [[.shutdownAck]]) := by
-  simp [writeLoopPass, gather, gatherPrio, gatherState, gatherShut, h1, h2, h3, h4,
+  simp [writeLoopPass, gather, gatherPrio, gatherState, gatherShut, h0, h1, h2, h3, h4,
     stShutdownSent, stShutdownAckSent, stEstablished, stShutdownPending, stShutdownReceived]
 
 /-- SHUTDOWN-COMPLETE due: it goes out alone and the write loop closes the association -/
-theorem wl_shutdownComplete (e : Ep) (d : List (List (Nat × Nat))) (h1 : e.dead = false) (h2 : e.wSC = true) :
+theorem wl_shutdownComplete (e : Ep) (d : List (List (Nat × Nat))) (h0 : e.wAb = false) (h1 : e.dead = false) (h2 : e.wSC = true) :
     writeLoopPass e d = (close { e with wSC := false, wSA := false, wS := false }, [[.shutdownComplete]]) := by
-  simp [writeLoopPass, gather, gatherShut, h1, h2]
+  simp [writeLoopPass, gather, gatherShut, h0, h1, h2]
 
 /-! ### inbound shutdown chunks -/
 /-- SHUTDOWN whose cumulative ack is the current ack point, nothing queued or in flight: SHUTDOWN-ACK is due at once -/
@@ -57,7 +57,7 @@ theorem rx_shutdownAck (e : Ep) (h1 : e.st = stShutdownSent ∨ e.st = stShutdow
     simp [handlePkt, handleChunk, handleShutdownAck, chunksEnd, h1, stShutdownSent, stShutdownAckSent]
 
 theorem rx_shutdownComplete (e : Ep) (h1 : e.st = stShutdownAckSent) :
-    handlePkt e [.shutdownComplete] = close { e with imm := false, del := false, t2 := t2stop e.t2 } := by
+    handlePkt e [.shutdownComplete] = close { e with imm := false, del := false, t2 := t2stop e.t2, scr := true } := by
   simp [handlePkt, handleChunk, handleShutdownComplete, chunksEnd, close, h1, stShutdownAckSent]
 
 /-! ### T2 -/
@@ -120,6 +120,8 @@ structure Ready (s : Sys) : Prop where
   a_ack : s.a.ack ≠ ackImmediate
   a_sd : s.a.sd = 1
   a_t2 : s.a.t2 = 0
+  a_wAb : s.a.wAb = false
+  b_wAb : s.b.wAb = false
   b_st : s.b.st = stEstablished
   b_wSC : s.b.wSC = false
   b_scp : s.b.scp = false
@@ -139,23 +141,23 @@ def closingFaultFree (n m : Nat) : List Op :=
   [.gather false [], .deliver false n, .gather true [], .deliver true m, .gather false [], .deliver false (n + 1)]
 
 theorem closing_fault_free (s : Sys) (h : Ready s) : Done s (s.run (closingFaultFree s.ha.size s.hb.size)) := by
-  obtain ⟨a1, a2, a3, a4, a5, a6, a7, a8, a9, b1, b2, b3, b4, b9, b5, b6, hpl⟩ := h
+  obtain ⟨a1, a2, a3, a4, a5, a6, a7, a8, a9, a0, b0, b1, b2, b3, b4, b9, b5, b6, hpl⟩ := h
   obtain ⟨a, b, ha, hb⟩ := s
-  simp only at a1 a2 a3 a4 a5 a6 a7 a8 a9 b1 b2 b3 b4 b9 b5 b6 hpl
+  simp only at a1 a2 a3 a4 a5 a6 a7 a8 a9 a0 b0 b1 b2 b3 b4 b9 b5 b6 hpl
   simp only [closingFaultFree]
   -- A's write loop sends SHUTDOWN; it reaches B
-  rw [run_cons, step_gather_a _ _ _ _ [] _ _ (wl_shutdown a a6 a4 a1 a2 a3 a7)]
+  rw [run_cons, step_gather_a _ _ _ _ [] _ _ (wl_shutdown a a0 a6 a4 a1 a2 a3 a7)]
   rw [run_cons, step_deliver_a _ _ _ _ ha.size _ (hist_get0 _ _) b4, rx_shutdown_idle b _ b1 b3 b5 b6 hpl]
   -- B's write loop sends SHUTDOWN-ACK; it reaches A
-  rw [run_cons, step_gather_b _ _ _ _ [] _ _ (wl_shutdownAck _ ?_ ?_ ?_ ?_)]
-  rotate_left; exact b4; exact b2; rfl; rfl
+  rw [run_cons, step_gather_b _ _ _ _ [] _ _ (wl_shutdownAck _ ?_ ?_ ?_ ?_ ?_)]
+  rotate_left; exact b0; exact b4; exact b2; rfl; rfl
   dsimp only
   rw [run_cons, step_deliver_b _ _ _ _ hb.size _ (hist_get0 _ _) ?_, rx_shutdownAck _ ?_]
   rotate_left; exact Or.inl a1; exact a6
   dsimp only
   -- A's write loop sends SHUTDOWN-COMPLETE and closes; it reaches B
-  rw [run_cons, step_gather_a _ _ _ _ [] _ _ (wl_shutdownComplete _ [] ?_ ?_)]
-  rotate_left; exact a6; rfl
+  rw [run_cons, step_gather_a _ _ _ _ [] _ _ (wl_shutdownComplete _ [] ?_ ?_ ?_)]
+  rotate_left; exact a0; exact a6; rfl
   dsimp only
   rw [run_cons, step_deliver_a _ _ _ _ (ha.size + 1) _ (hist_get1 _ _ _) ?_, rx_shutdownComplete _ ?_]
   rotate_left; rfl; exact b4
@@ -167,26 +169,26 @@ def closingShutdownLost (n m : Nat) : List Op :=
    .gather false [], .deliver false (n + 2)]
 
 theorem closing_shutdown_lost (s : Sys) (h : Ready s) : Done s (s.run (closingShutdownLost s.ha.size s.hb.size)) := by
-  obtain ⟨a1, a2, a3, a4, a5, a6, a7, a8, a9, b1, b2, b3, b4, b9, b5, b6, hpl⟩ := h
+  obtain ⟨a1, a2, a3, a4, a5, a6, a7, a8, a9, a0, b0, b1, b2, b3, b4, b9, b5, b6, hpl⟩ := h
   obtain ⟨a, b, ha, hb⟩ := s
-  simp only at a1 a2 a3 a4 a5 a6 a7 a8 a9 b1 b2 b3 b4 b9 b5 b6 hpl
+  simp only at a1 a2 a3 a4 a5 a6 a7 a8 a9 a0 b0 b1 b2 b3 b4 b9 b5 b6 hpl
   simp only [closingShutdownLost]
-  rw [run_cons, step_gather_a _ _ _ _ [] _ _ (wl_shutdown a a6 a4 a1 a2 a3 a7)]   -- SHUTDOWN #1 (lost)
+  rw [run_cons, step_gather_a _ _ _ _ [] _ _ (wl_shutdown a a0 a6 a4 a1 a2 a3 a7)]   -- SHUTDOWN #1 (lost)
   rw [run_cons, step_t2_a, t2_sent _ ?_ ?_ ?_]
   rotate_left; simp [t2start, a9]; exact a5; exact a1
   dsimp only
-  rw [run_cons, step_gather_a _ _ _ _ [] _ _ (wl_shutdown _ ?_ ?_ ?_ ?_ ?_ ?_)]   -- SHUTDOWN #2
-  rotate_left; exact a6; exact a4; exact a1; rfl; exact a3; exact a7
+  rw [run_cons, step_gather_a _ _ _ _ [] _ _ (wl_shutdown _ ?_ ?_ ?_ ?_ ?_ ?_ ?_)]   -- SHUTDOWN #2
+  rotate_left; exact a0; exact a6; exact a4; exact a1; rfl; exact a3; exact a7
   dsimp only
   rw [run_cons, step_deliver_a _ _ _ _ (ha.size + 1) _ (hist_get1 _ _ _) b4, rx_shutdown_idle b _ b1 b3 b5 b6 hpl]
-  rw [run_cons, step_gather_b _ _ _ _ [] _ _ (wl_shutdownAck _ ?_ ?_ ?_ ?_)]
-  rotate_left; exact b4; exact b2; rfl; rfl
+  rw [run_cons, step_gather_b _ _ _ _ [] _ _ (wl_shutdownAck _ ?_ ?_ ?_ ?_ ?_)]
+  rotate_left; exact b0; exact b4; exact b2; rfl; rfl
   dsimp only
   rw [run_cons, step_deliver_b _ _ _ _ hb.size _ (hist_get0 _ _) ?_, rx_shutdownAck _ ?_]
   rotate_left; exact Or.inl a1; exact a6
   dsimp only
-  rw [run_cons, step_gather_a _ _ _ _ [] _ _ (wl_shutdownComplete _ [] ?_ ?_)]
-  rotate_left; exact a6; rfl
+  rw [run_cons, step_gather_a _ _ _ _ [] _ _ (wl_shutdownComplete _ [] ?_ ?_ ?_)]
+  rotate_left; exact a0; exact a6; rfl
   dsimp only
   rw [run_cons, step_deliver_a _ _ _ _ (ha.size + 2) _ (hist_get2 _ _ _ _) ?_, rx_shutdownComplete _ ?_]
   rotate_left; rfl; exact b4
@@ -199,32 +201,32 @@ def closingAckLost (n m : Nat) : List Op :=
    .gather true [], .deliver true (m + 1), .gather false [], .deliver false (n + 2)]
 
 theorem closing_ack_lost (s : Sys) (h : Ready s) : Done s (s.run (closingAckLost s.ha.size s.hb.size)) := by
-  obtain ⟨a1, a2, a3, a4, a5, a6, a7, a8, a9, b1, b2, b3, b4, b9, b5, b6, hpl⟩ := h
+  obtain ⟨a1, a2, a3, a4, a5, a6, a7, a8, a9, a0, b0, b1, b2, b3, b4, b9, b5, b6, hpl⟩ := h
   obtain ⟨a, b, ha, hb⟩ := s
-  simp only at a1 a2 a3 a4 a5 a6 a7 a8 a9 b1 b2 b3 b4 b9 b5 b6 hpl
+  simp only at a1 a2 a3 a4 a5 a6 a7 a8 a9 a0 b0 b1 b2 b3 b4 b9 b5 b6 hpl
   simp only [closingAckLost]
-  rw [run_cons, step_gather_a _ _ _ _ [] _ _ (wl_shutdown a a6 a4 a1 a2 a3 a7)]
+  rw [run_cons, step_gather_a _ _ _ _ [] _ _ (wl_shutdown a a0 a6 a4 a1 a2 a3 a7)]
   rw [run_cons, step_deliver_a _ _ _ _ ha.size _ (hist_get0 _ _) b4, rx_shutdown_idle b _ b1 b3 b5 b6 hpl]
-  rw [run_cons, step_gather_b _ _ _ _ [] _ _ (wl_shutdownAck _ ?_ ?_ ?_ ?_)]     -- SHUTDOWN-ACK #1 (lost)
-  rotate_left; exact b4; exact b2; rfl; rfl
+  rw [run_cons, step_gather_b _ _ _ _ [] _ _ (wl_shutdownAck _ ?_ ?_ ?_ ?_ ?_)]     -- SHUTDOWN-ACK #1 (lost)
+  rotate_left; exact b0; exact b4; exact b2; rfl; rfl
   dsimp only
   rw [run_cons, step_t2_a, t2_sent _ ?_ ?_ ?_]
   rotate_left; simp [t2start, a9]; exact a5; exact a1
   dsimp only
-  rw [run_cons, step_gather_a _ _ _ _ [] _ _ (wl_shutdown _ ?_ ?_ ?_ ?_ ?_ ?_)]
-  rotate_left; exact a6; exact a4; exact a1; rfl; exact a3; exact a7
+  rw [run_cons, step_gather_a _ _ _ _ [] _ _ (wl_shutdown _ ?_ ?_ ?_ ?_ ?_ ?_ ?_)]
+  rotate_left; exact a0; exact a6; exact a4; exact a1; rfl; exact a3; exact a7
   dsimp only
   rw [run_cons, step_deliver_a _ _ _ _ (ha.size + 1) _ (hist_get1 _ _ _) ?_, rx_shutdown_ackSent _ _ ?_ ?_]
   rotate_left; rfl; exact b3; exact b4
   dsimp only
-  rw [run_cons, step_gather_b _ _ _ _ [] _ _ (wl_shutdownAck _ ?_ ?_ ?_ ?_)]     -- SHUTDOWN-ACK #2
-  rotate_left; exact b4; exact b2; rfl; rfl
+  rw [run_cons, step_gather_b _ _ _ _ [] _ _ (wl_shutdownAck _ ?_ ?_ ?_ ?_ ?_)]     -- SHUTDOWN-ACK #2
+  rotate_left; exact b0; exact b4; exact b2; rfl; rfl
   dsimp only
   rw [run_cons, step_deliver_b _ _ _ _ (hb.size + 1) _ (hist_get1 _ _ _) ?_, rx_shutdownAck _ ?_]
   rotate_left; exact Or.inl a1; exact a6
   dsimp only
-  rw [run_cons, step_gather_a _ _ _ _ [] _ _ (wl_shutdownComplete _ [] ?_ ?_)]
-  rotate_left; exact a6; rfl
+  rw [run_cons, step_gather_a _ _ _ _ [] _ _ (wl_shutdownComplete _ [] ?_ ?_ ?_)]
+  rotate_left; exact a0; exact a6; rfl
   dsimp only
   rw [run_cons, step_deliver_a _ _ _ _ (ha.size + 2) _ (hist_get2 _ _ _ _) ?_, rx_shutdownComplete _ ?_]
   rotate_left; rfl; exact b4
@@ -237,26 +239,26 @@ def closingCompleteLost (n m : Nat) : List Op :=
    .t2 true, .gather true [], .deliver true (m + 1), .closeConn true]
 
 theorem closing_complete_lost (s : Sys) (h : Ready s) : Done s (s.run (closingCompleteLost s.ha.size s.hb.size)) := by
-  obtain ⟨a1, a2, a3, a4, a5, a6, a7, a8, a9, b1, b2, b3, b4, b9, b5, b6, hpl⟩ := h
+  obtain ⟨a1, a2, a3, a4, a5, a6, a7, a8, a9, a0, b0, b1, b2, b3, b4, b9, b5, b6, hpl⟩ := h
   obtain ⟨a, b, ha, hb⟩ := s
-  simp only at a1 a2 a3 a4 a5 a6 a7 a8 a9 b1 b2 b3 b4 b9 b5 b6 hpl
+  simp only at a1 a2 a3 a4 a5 a6 a7 a8 a9 a0 b0 b1 b2 b3 b4 b9 b5 b6 hpl
   simp only [closingCompleteLost]
-  rw [run_cons, step_gather_a _ _ _ _ [] _ _ (wl_shutdown a a6 a4 a1 a2 a3 a7)]
+  rw [run_cons, step_gather_a _ _ _ _ [] _ _ (wl_shutdown a a0 a6 a4 a1 a2 a3 a7)]
   rw [run_cons, step_deliver_a _ _ _ _ ha.size _ (hist_get0 _ _) b4, rx_shutdown_idle b _ b1 b3 b5 b6 hpl]
-  rw [run_cons, step_gather_b _ _ _ _ [] _ _ (wl_shutdownAck _ ?_ ?_ ?_ ?_)]
-  rotate_left; exact b4; exact b2; rfl; rfl
+  rw [run_cons, step_gather_b _ _ _ _ [] _ _ (wl_shutdownAck _ ?_ ?_ ?_ ?_ ?_)]
+  rotate_left; exact b0; exact b4; exact b2; rfl; rfl
   dsimp only
   rw [run_cons, step_deliver_b _ _ _ _ hb.size _ (hist_get0 _ _) ?_, rx_shutdownAck _ ?_]
   rotate_left; exact Or.inl a1; exact a6
   dsimp only
-  rw [run_cons, step_gather_a _ _ _ _ [] _ _ (wl_shutdownComplete _ [] ?_ ?_)]   -- SHUTDOWN-COMPLETE (lost); A is closed
-  rotate_left; exact a6; rfl
+  rw [run_cons, step_gather_a _ _ _ _ [] _ _ (wl_shutdownComplete _ [] ?_ ?_ ?_)]   -- SHUTDOWN-COMPLETE (lost); A is closed
+  rotate_left; exact a0; exact a6; rfl
   dsimp only
   rw [run_cons, step_t2_b, t2_ackSent _ ?_ ?_ ?_]
   rotate_left; simp [t2start, b9]; exact b3; rfl
   dsimp only
-  rw [run_cons, step_gather_b _ _ _ _ [] _ _ (wl_shutdownAck _ ?_ ?_ ?_ ?_)]
-  rotate_left; exact b4; exact b2; rfl; rfl
+  rw [run_cons, step_gather_b _ _ _ _ [] _ _ (wl_shutdownAck _ ?_ ?_ ?_ ?_ ?_)]
+  rotate_left; exact b0; exact b4; exact b2; rfl; rfl
   dsimp only
   rw [run_cons, step_deliver_b_dropped _ _ _ _ _ rfl]
   rw [run_cons, step_closeConn_b]
@@ -280,6 +282,8 @@ structure ReadyBoth (s : Sys) : Prop where
   b_dead : s.b.dead = false
   b_ack : s.b.ack ≠ ackImmediate
   b_sd : s.b.sd = 1
+  a_wAb : s.a.wAb = false
+  b_wAb : s.b.wAb = false
 
 /-- crossed shutdown: both SHUTDOWNs on the wire at once, each answered by SHUTDOWN-ACK, each answered by SHUTDOWN-COMPLETE -/
 def closingCrossed (n m : Nat) : List Op :=
@@ -292,23 +296,23 @@ def DoneBoth (s0 s : Sys) : Prop :=
   s.b.dead = true ∧ s.b.st = stClosed ∧ s.b.sd = 2 ∧ s.b.connFailed = s0.b.connFailed
 
 theorem closing_crossed (s : Sys) (h : ReadyBoth s) : DoneBoth s (s.run (closingCrossed s.ha.size s.hb.size)) := by
-  obtain ⟨a1, a2, a3, a4, a5, a6, a7, a8, b1, b2, b3, b4, b5, b6, b7, b8⟩ := h
+  obtain ⟨a1, a2, a3, a4, a5, a6, a7, a8, b1, b2, b3, b4, b5, b6, b7, b8, a0, b0⟩ := h
   obtain ⟨a, b, ha, hb⟩ := s
-  simp only at a1 a2 a3 a4 a5 a6 a7 a8 b1 b2 b3 b4 b5 b6 b7 b8
+  simp only at a1 a2 a3 a4 a5 a6 a7 a8 b1 b2 b3 b4 b5 b6 b7 b8 a0 b0
   simp only [closingCrossed]
-  rw [run_cons, step_gather_a _ _ _ _ [] _ _ (wl_shutdown a a6 a4 a1 a2 a3 a7)]
-  rw [run_cons, step_gather_b _ _ _ _ [] _ _ (wl_shutdown b b6 b4 b1 b2 b3 b7)]
+  rw [run_cons, step_gather_a _ _ _ _ [] _ _ (wl_shutdown a a0 a6 a4 a1 a2 a3 a7)]
+  rw [run_cons, step_gather_b _ _ _ _ [] _ _ (wl_shutdown b b0 b6 b4 b1 b2 b3 b7)]
   rw [run_cons, step_deliver_a _ _ _ _ ha.size _ (hist_get0 _ _) ?_, rx_shutdown_sent _ _ ?_ ?_]
   rotate_left; exact b1; exact b5; exact b6
   dsimp only
   rw [run_cons, step_deliver_b _ _ _ _ hb.size _ (hist_get0 _ _) ?_, rx_shutdown_sent _ _ ?_ ?_]
   rotate_left; exact a1; exact a5; exact a6
   dsimp only
-  rw [run_cons, step_gather_a _ _ _ _ [] _ _ (wl_shutdownAck _ ?_ ?_ ?_ ?_)]
-  rotate_left; exact a6; exact a4; rfl; rfl
+  rw [run_cons, step_gather_a _ _ _ _ [] _ _ (wl_shutdownAck _ ?_ ?_ ?_ ?_ ?_)]
+  rotate_left; exact a0; exact a6; exact a4; rfl; rfl
   dsimp only
-  rw [run_cons, step_gather_b _ _ _ _ [] _ _ (wl_shutdownAck _ ?_ ?_ ?_ ?_)]
-  rotate_left; exact b6; exact b4; rfl; rfl
+  rw [run_cons, step_gather_b _ _ _ _ [] _ _ (wl_shutdownAck _ ?_ ?_ ?_ ?_ ?_)]
+  rotate_left; exact b0; exact b6; exact b4; rfl; rfl
   dsimp only
   rw [run_cons, step_deliver_a _ _ _ _ (ha.size + 1) _ (hist_get1 _ _ _) ?_, rx_shutdownAck _ ?_]
   rotate_left; exact Or.inr rfl; exact b6
@@ -316,11 +320,11 @@ theorem closing_crossed (s : Sys) (h : ReadyBoth s) : DoneBoth s (s.run (closing
   rw [run_cons, step_deliver_b _ _ _ _ (hb.size + 1) _ (hist_get1 _ _ _) ?_, rx_shutdownAck _ ?_]
   rotate_left; exact Or.inr rfl; exact a6
   dsimp only
-  rw [run_cons, step_gather_a _ _ _ _ [] _ _ (wl_shutdownComplete _ [] ?_ ?_)]
-  rotate_left; exact a6; rfl
+  rw [run_cons, step_gather_a _ _ _ _ [] _ _ (wl_shutdownComplete _ [] ?_ ?_ ?_)]
+  rotate_left; exact a0; exact a6; rfl
   dsimp only
-  rw [run_cons, step_gather_b _ _ _ _ [] _ _ (wl_shutdownComplete _ [] ?_ ?_)]
-  rotate_left; exact b6; rfl
+  rw [run_cons, step_gather_b _ _ _ _ [] _ _ (wl_shutdownComplete _ [] ?_ ?_ ?_)]
+  rotate_left; exact b0; exact b6; rfl
   simp [run_nil, DoneBoth, close, a8, b8]
 
 end Sd
